@@ -58,3 +58,8 @@ chk("C05","model_checking",
  "(1) about 55,000 outbox inputs (Creates and bare objects with overlapping recipient / attribution sets from a 3-IRI alphabet, other activity types, 4 entry/actor combinations) are posted to the real handlers and the stored activity and objects judged with set semantics (wrapping, fresh distinct ids, attribution closure, addressing unions, storage, outbox position, persistence-before-delivery order, Location); (2) explicit-state search over histories: every sequence of up to 5 (thorough 7) posts over a 7-post alphabet, each transition a real request on a cloned application state, with the outbox invariant checked in every state; (3) every choice of <= 1 (thorough 2) failing seam calls for ~600 posts: nothing is delivered and success is not reported after a failed persistence step.",
  "Trusted: application-state cloning (the model is ours), set-semantics oracle. Order inside addressing lists not asserted.",
  "explicit-state search over operation histories + bounded-exhaustive input and fault-sequence enumeration","DESIGN.md 3 C05")
+
+chk("C17","model_checking",
+ "Activities over every addressing sequence (<= 2, thorough 3 entries from owned Collection / OrderedCollection / foreign collection / owned non-collection / actor) x every reply chain up to depth 3 (5) with embedded / dereferenced / missing / unknown-type links and an owned or foreign end x depth limits x 3 filters are delivered along 5 histories (1..3 deliveries to one or two local inboxes) as sequences of real requests on one application state; oracle: forwarded exactly once, on first sight, iff an owned collection is addressed and an owned value lies within the limit; filter offered exactly the owned addressed collections and obeyed; payload equals the received body; recorded as seen exactly once.",
+ "Trusted: chain-reach computation of the oracle; locks counted not blocking; non-JSON documents left to C11.",
+ "bounded-exhaustive enumeration of activities x delivery histories (state exploration over request sequences) against a reference predicate","DESIGN.md 3 C17")
